@@ -62,6 +62,27 @@ def run_chunk(args):
     return tr
 
 
+def scenario_busy(args):
+    """a busy application: node A is handed a message (its radio acknowledges it, B's write() returns True) while A's
+    application is doing something else; before it polls again A sends a message of its own - single-frame or fragmented.
+    What waits in A's radio must survive A's own transmission."""
+    n_own, seed, jitter = args
+    nodes = [dict(addr=a, kind="net") for a in (0, 0o1, 0o2)]
+    ns = net.NetSim(nodes, seed=seed, jitter=jitter)
+    name = {nd["addr"]: nd["name"] for nd in nodes}
+    jb = net.job_write(name[0o1], 0, 0, b"for the busy node", chk=["C05b"], jid=1, budget_ms=6000)
+
+    def busy(ns_, nm):
+        ns_.s.advance(50_000_000)                      # the application is busy for 50 ms (no update())
+        o = ns_.objs[nm]
+        o.send(ns_.structs.RF24NetworkHeader(0o2, 1), bytes((i * 3 + n_own) & 0xFF for i in range(n_own)))
+    scripts = {name[0]: [(1_000_000_000, busy)], name[0o1]: [(1_010_000_000, lambda ns_, nm: jb["fn"](ns_, nm, jb))]}
+    tr = ns.run([], scripts=scripts)
+    tr["meta"] = dict(addrs=["0o0", "0o1", "0o2"], kinds={}, seed=seed, jitter=jitter, frag=True, ret_sys_msg=False,
+                      private_addresses=False, jobs=[["0o1", "0o0", 0, 17]], busy_own_len=n_own)
+    return tr
+
+
 def classify(w, clause):
     """coarse cause class of a lost / unconfirmed message (used for the known-finding key only)"""
     c = w["call"]
@@ -258,6 +279,7 @@ def run(chk):
     chunks = build(chk)
     with ProcessPoolExecutor(16) as ex:
         traces = list(ex.map(run_chunk, chunks))
+        traces += list(ex.map(scenario_busy, [(n_, chk.seed * 311 + i, 3000) for i, n_ in enumerate((5, 24, 25, 60, 144))]))
     chk.phase("simulate")
     nj = 0
     for t in traces:
